@@ -21,6 +21,7 @@ from __future__ import annotations
 import ast
 import json
 import os
+import re
 import subprocess
 import typing
 
@@ -546,12 +547,42 @@ def coq_path(p: str) -> str:
     return '[%s]' % '; '.join(s2c(c) for c in p.split('/'))
 
 
-def coq_tfile(name: str, path: str, suffix: str = '.j2') -> str:
+REF_RE = re.compile(r"""\{%[-+*]?\s*(?:include|import|from|extends)\s+(?:(["'])([^"']+)\1|([^\s"']))""")
+
+
+def scan_refs(text: str) -> typing.Tuple[typing.List[str], bool]:
+    """template reference graph: constant targets of include/import/from/extends statements, and whether there is one with a
+    computed target (e.g. `include x | type_to_template`), which can name any class template"""
+    refs, dyn = [], False
+    for m in REF_RE.finditer(text):
+        if m.group(2) is not None:
+            if m.group(2) not in refs:
+                refs.append(m.group(2))
+        else:
+            dyn = True
+    return refs, dyn
+
+
+def scan_refs_file(path: str) -> typing.Tuple[typing.List[str], bool]:
+    try:
+        with open(path, 'r', encoding='utf-8', errors='replace') as f:
+            return scan_refs(f.read())
+    except OSError:
+        return [], False
+
+
+def coq_tfile(name: str, path: str, suffix: str = '.j2', refs: typing.Optional[typing.Tuple[typing.List[str], bool]] = None) -> str:
+    if refs is None:
+        refs = scan_refs_file(path)
+    return _coq_tfile(name, path, suffix) + '; tf_refs := [%s]; tf_dyn := %s |}' % ('; '.join(s2c(r) for r in refs[0]), 'true' if refs[1] else 'false')
+
+
+def _coq_tfile(name: str, path: str, suffix: str = '.j2') -> str:
     j2 = name.endswith(suffix) and os.path.splitext(name)[1] == suffix
     stem = os.path.splitext(os.path.basename(name))[0]
     cls = CLS_OF_STEM.get(stem) if (j2 and '/' not in name) else None
     py = os.path.splitext(name)[1] in ('.py', '.pyc', '.pyo') or '__pycache__' in name.split('/')
-    return '{| tf_name := %s; tf_path := %s; tf_j2 := %s; tf_py := %s; tf_cls := %s |}' % (
+    return '{| tf_name := %s; tf_path := %s; tf_j2 := %s; tf_py := %s; tf_cls := %s' % (
         s2c(name), coq_path(path), 'true' if j2 else 'false', 'true' if py else 'false', ('Some %s' % cls) if cls else 'None')
 
 
@@ -578,9 +609,10 @@ def coq_lang(name: str, d: dict) -> str:
         return '[%s]' % '; '.join('{| sr_name := %s; sr_stem := %s; sr_j2 := %s; sr_path := %s |}' % (
             s2c(n), s2c(st), 'true' if j else 'false', coq_path(p)) for n, st, j, p in lst)
     return ('Definition lang_%s : langinfo := {|\n  l_ext := %s; l_stem := %s; l_std_ns := %s; l_support_ns := [%s];\n'
-            '  l_templates := %s;\n  l_support_dir := %s;\n  l_sup_ser := %s;\n  l_sup_type := %s |}.' % (
+            '  l_templates := %s;\n  l_support_dir := %s;\n  l_sup_ser := %s;\n  l_sup_type := %s;\n  l_properties := %s |}.' % (
                 name, s2c(d['ext']), s2c(d['stem']), 'true' if d['std_ns'] else 'false', '; '.join(s2c(x) for x in d['support_ns']),
-                tdir(d['templates']), tdir(d['support_dir']), sres(d['ser']), sres(d['typ'])))
+                tdir(d['templates']), tdir(d['support_dir']), sres(d['ser']), sres(d['typ']),
+                coq_path(os.path.realpath(os.path.join(gen.REPO, 'src', 'nunavut', 'lang', 'properties.yaml')))))
 
 
 HEAD = (gen.HEADER % ', '.join([SRC_R, SRC_C, SRC_G, SRC_J, 'src/nunavut/lang/*/ (package data)'])
@@ -612,6 +644,7 @@ def gen_listing() -> typing.Tuple[bool, str]:
             ('k_fix_lookup', 'true' if ptr.lists_deps else 'false'),
             ('k_fix_nonj2', 'true' if tpl_variant == 'fix' else 'false'),
             ('k_fix_suptpl', 'true' if sup_variant == 'fix' else 'false'),
+            ('k_path_pure', 'true' if path_effects() == [] else 'false'),
         ]
         data = lang_data()
         parts = ['Definition the_code : code := {|\n%s |}.' % ';\n'.join('  %s := %s' % f for f in fields)]
@@ -622,6 +655,129 @@ def gen_listing() -> typing.Tuple[bool, str]:
         return False, 'C08 translator failed closed: %s' % ex
     gen.write_if_changed(OUT, HEAD + '\n\n'.join(parts) + '\n')
     return True, 'ok'
+
+
+# ---------------------------------------------------------------------------------------------
+# effect scan of the whole listing / dry-run call path
+# ---------------------------------------------------------------------------------------------
+SCAN_FILES = ['src/nunavut/cli/runners.py', 'src/nunavut/cli/__init__.py', 'src/nunavut/_generators.py', 'src/nunavut/_namespace.py',
+              'src/nunavut/jinja/__init__.py', 'src/nunavut/jinja/loaders.py', 'src/nunavut/jinja/environment.py',
+              'src/nunavut/lang/__init__.py', 'src/nunavut/lang/_language.py', 'src/nunavut/lang/_config.py', 'src/nunavut/lang/_common.py',
+              'src/nunavut/_dependencies.py', 'src/nunavut/_utilities.py', 'src/nunavut/_postprocessors.py']
+# functions that ARE the effects of a real run; they may only be reached from inside an `if not is_dryrun:` block
+SINKS = {'CodeGenerator._generate_code', 'CodeGenerator._handle_overwrite', 'SupportGenerator._copy_header_using_line_pps',
+         'CodeGenerator._generate_with_line_buffer', 'CodeGenerator._filter_and_write_line'}
+SINK_CALLS = {'_generate_code', '_handle_overwrite', '_copy_header_using_line_pps', '_generate_with_line_buffer', '_filter_and_write_line'}
+FS_ATTRS = {'mkdir', 'makedirs', 'write_text', 'write_bytes', 'touch', 'unlink', 'rmdir', 'chmod', 'lchmod', 'rmtree', 'symlink_to',
+            'hardlink_to', 'link_to', 'truncate', 'rename', 'utime', 'mkstemp', 'mkdtemp', 'NamedTemporaryFile', 'TemporaryDirectory',
+            'copyfile', 'copy2', 'copytree', 'move', 'remove', 'removedirs', 'renames', 'mkfifo', 'mknod', 'chown'}
+# core functions of the call path: besides the deny-list above, every callee NAME outside the dry-run guards must be one that
+# was there when the pins were taken (pins/c08_enum.json "callees"); a new one fails closed
+CORE = {
+    'src/nunavut/cli/runners.py': ['ArgparseRunner.*'],
+    'src/nunavut/cli/__init__.py': ['main', '_extra_includes_from_env', '_NunavutArgumentParser.*'],
+    'src/nunavut/_generators.py': ['AbstractGenerator.__init__', 'create_default_generators'],
+    'src/nunavut/jinja/__init__.py': ['CodeGenerator.__init__', 'CodeGenerator._handle_post_processors', 'CodeGenerator.get_templates',
+                                      'DSDLCodeGenerator.__init__', 'DSDLCodeGenerator.generate_all', 'DSDLCodeGenerator._generate_type',
+                                      'DSDLCodeGenerator.filter_type_to_template', 'SupportGenerator.*'],
+    'src/nunavut/jinja/loaders.py': ['DSDLTemplateLoader.*', '_is_template_resource'],
+    'src/nunavut/_namespace.py': ['build_namespace_tree', 'Namespace.__init__', '_NamespaceFactory.*'],
+}
+
+
+def _is_guard(st: ast.stmt) -> bool:
+    return isinstance(st, ast.If) and _u(st.test) == 'not is_dryrun'
+
+
+def _calls_outside_guard(fn: ast.AST) -> typing.List[ast.Call]:
+    out: typing.List[ast.Call] = []
+
+    def visit(node: ast.AST) -> None:
+        if _is_guard(node):
+            for x in node.orelse:          # type: ignore[attr-defined]
+                visit(x)
+            return
+        if isinstance(node, ast.Call):
+            out.append(node)
+        for ch in ast.iter_child_nodes(node):
+            visit(ch)
+    for st in fn.body:                     # type: ignore[attr-defined]
+        visit(st)
+    return out
+
+
+def _effect_of(c: ast.Call) -> typing.Optional[str]:
+    f = _u(c.func)
+    last = f.split('.')[-1]
+    if last in SINK_CALLS:
+        return 'call of the effectful %s' % last
+    if last in FS_ATTRS or f.startswith(('shutil.', 'subprocess.')) or f in ('os.replace', 'os.system', 'os.popen'):
+        return 'file-system effect %s' % f
+    if last == 'write' and not f.startswith(('sys.stdout.', 'sys.stderr.')):
+        return 'write through %s' % f
+    if last == 'open':
+        mode = None
+        if len(c.args) >= 2:
+            mode = c.args[1]
+        for kw in c.keywords:
+            if kw.arg == 'mode':
+                mode = kw.value
+        if mode is not None and not (isinstance(mode, ast.Constant) and isinstance(mode.value, str) and not set(mode.value) & set('wax+')):
+            return 'open for writing (%s)' % _u(mode)
+    return None
+
+
+def _functions(tree: ast.Module) -> typing.Iterator[typing.Tuple[str, ast.AST]]:
+    for n in tree.body:
+        if isinstance(n, (ast.FunctionDef, ast.AsyncFunctionDef)):
+            yield n.name, n
+        elif isinstance(n, ast.ClassDef):
+            for m in n.body:
+                if isinstance(m, (ast.FunctionDef, ast.AsyncFunctionDef)):
+                    yield '%s.%s' % (n.name, m.name), m
+
+
+def _is_sink(rel: str, q: str) -> bool:
+    return q in SINKS or (rel.endswith('_postprocessors.py') and q.endswith('.__call__'))
+
+
+def _core_match(rel: str, q: str) -> bool:
+    for pat in CORE.get(rel, []):
+        if pat == q or (pat.endswith('.*') and q.startswith(pat[:-1])):
+            return True
+    return False
+
+
+def scan_call_path() -> typing.Tuple[typing.List[str], typing.Dict[str, typing.List[str]]]:
+    """(effects found outside the dry-run guards, callee names per core function)"""
+    effects: typing.List[str] = []
+    callees: typing.Dict[str, typing.List[str]] = {}
+    for rel in SCAN_FILES:
+        tree = gen.parse_repo(rel)
+        for q, fn in _functions(tree):
+            if _is_sink(rel, q):
+                continue
+            calls = _calls_outside_guard(fn)
+            for c in calls:
+                e = _effect_of(c)
+                if e:
+                    effects.append('%s:%s line %d: %s' % (rel, q, c.lineno, e))
+            if _core_match(rel, q):
+                # calls already classified as effects make k_path_pure false (a failing proof); only the others need the allow-set
+                callees['%s:%s' % (rel, q)] = sorted({_u(c.func).split('.')[-1].split('(')[0] for c in calls if _effect_of(c) is None})
+    return effects, callees
+
+
+def path_effects() -> typing.List[str]:
+    effects, callees = scan_call_path()
+    pinned = _pins().get('callees', {})
+    for fn, names in callees.items():
+        if fn not in pinned:
+            raise Unsupported('new function on the listing/dry-run call path: %s' % fn)
+        new = sorted(set(names) - set(pinned[fn]))
+        if new:
+            raise Unsupported('unclassified call(s) %s in %s (outside the dry-run guard)' % (', '.join(new), fn))
+    return effects
 
 
 # ---------------------------------------------------------------------------------------------
@@ -700,6 +856,12 @@ def update_pins() -> None:
     common = _dump(PIN_COMMON)
     assert common is not None
     pins['common'] = common
+    effects, callees = scan_call_path()
+    assert effects == [], effects
+    merged = pins.get('callees', {})
+    for fn, names in callees.items():            # union over the trees the pins were taken from
+        merged[fn] = sorted(set(merged.get(fn, [])) | set(names))
+    pins['callees'] = merged
     for part, variants in PIN_VARIANTS.items():
         d = _dump(variants['fix'])
         name = 'fix'
